@@ -123,6 +123,9 @@ impl MasterSession {
         reader: &mut TransportReader,
     ) -> RunError {
         loop {
+            #[cfg(dnp3_verif)]
+            crate::verif::probe::master_sched();
+
             let result = match self.get_next_task() {
                 Next::Now(task) => {
                     let id = task.details.get_id();
